@@ -79,11 +79,17 @@ impl Context {
     }
 
     pub fn push_error_handler_context(&mut self) {
+        self.drop_collecting_arguments();
+        self.do_push_existing(0, false);
+    }
+
+    /// Drops the argument collecting states of a call that was abandoned
+    /// because an error occurred while its arguments were being evaluated.
+    pub fn drop_collecting_arguments(&mut self) {
         // drop all ArgumentState until we hit the first NormalState
         while self.states.last().unwrap().arguments.is_some() {
             self.do_pop();
         }
-        self.do_push_existing(0, false);
     }
 
     pub fn global_variables(&self) -> &Variables {
